@@ -1551,7 +1551,50 @@ func (x *lRun) block(dt int64) bool {
 		x.c09b2.step(BankOps(x.w.LastBlockEvents), "block", TxResult{})
 	}
 	x.invariants(fmt.Sprintf("after block %d", x.w.Height))
+	if x.prop == "C13" || x.prop == "C" {
+		x.c13Solvent(fmt.Sprintf("after block %d", x.w.Height))
+	}
 	return true
+}
+
+// c13Solvent (property C13 over the ledger histories): what every account holding committed shares (users AND position accounts)
+// would be paid by a claim now, summed per denom, is covered by the reward module's balance. The amounts come from the module's own
+// checkpoint + pending computation run on a throw-away context (the predicate is the property itself: every claim succeeds).
+func (x *lRun) c13Solvent(where string) {
+	qc, _ := x.w.QCtx().CacheContext()
+	mk := x.w.App.MasterchefKeeper
+	owed := sdk.NewCoins()
+	var who []string
+	func() {
+		defer func() {
+			if r := recover(); r != nil {
+				owed = nil
+			}
+		}()
+		pools := mk.GetAllPoolInfos(qc)
+		for _, c := range x.w.App.CommitmentKeeper.GetAllCommitments(qc) {
+			a, err := sdk.AccAddressFromBech32(c.Creator)
+			if err != nil {
+				continue
+			}
+			for _, p := range pools {
+				if r := mk.UserPoolPendingReward(qc, a, p.PoolId); !r.IsZero() {
+					owed = owed.Add(r...)
+					who = append(who, fmt.Sprintf("%s@%d:%s", c.Creator[len(c.Creator)-6:], p.PoolId, r))
+				}
+			}
+		}
+	}()
+	if owed == nil {
+		return
+	}
+	x.col.ImplCheck(1)
+	macc := authtypes.NewModuleAddress("masterchef")
+	for _, c := range owed {
+		if have := x.w.Bal(macc, c.Denom); have.LT(c.Amount) && c.Denom != "ueden" && c.Denom != "uedenb" {
+			x.fail("C13:unpayable", fmt.Sprintf("%s: masterchef holds %s%s but the claims of all holders would pay %s (%s)", where, have, c.Denom, c.Amount, strings.Join(who, " ")))
+		}
+	}
 }
 
 func runLedgerHistory(t *testing.T, col *Collector, prop string, h lHist) {
@@ -1751,6 +1794,9 @@ func runLedger(t *testing.T, prop string) {
 	if prop == "C12" {
 		cname = "C12l" // extra test of the C12 check: the lock-up rule on leveraged positions (TestC12 has its own directory)
 	}
+	if prop == "C13" {
+		cname = "C13l" // extra test of the C13 check: solvency of the reward module over the ledger histories (leveraged positions, batches)
+	}
 	col := NewCollector(cname, seed)
 	n := 128
 	if tier() == "thorough" {
@@ -1932,6 +1978,9 @@ func TestC06(t *testing.T) { runLedger(t, "C06") }
 func TestC08(t *testing.T) { runLedger(t, "C08") }
 func TestC09(t *testing.T) { runLedger(t, "C09") }
 func TestC11(t *testing.T) { runLedger(t, "C11") }
+
+// TestC13Ledger: the ledger histories judged by C13's solvency predicate (extra test of the C13 check)
+func TestC13Ledger(t *testing.T) { runLedger(t, "C13") }
 
 // TestC12Ledger: the ledger histories judged by C12's lock-up rule on leveraged-LP positions (extra test of the C12 check)
 func TestC12Ledger(t *testing.T) { runLedger(t, "C12") }
